@@ -32,12 +32,13 @@ def single(sub, qcases, tcases, cfg="native", **kw):
 QUICK_CASES = 60000
 
 
-def S(rule, q, t, minq, nda=True, **kw):
+def S(rule, q, t, minq, nda=True, cap=None, **kw):
     # thresholds below were calibrated as ~1/3..1/10 of what q cases produce; the quick tier runs fewer cases so that it
     # stays well inside its time budget on a loaded machine, and the thresholds are scaled accordingly
-    scale = min(1.0, QUICK_CASES / q) * 0.5
+    cap = cap or QUICK_CASES
+    scale = min(1.0, cap / q) * 0.5
     minq = {k: max(1, int(v * scale)) for k, v in minq.items()}
-    q = min(q, QUICK_CASES)
+    q = min(q, cap)
     runs = [single("single", q, t)]
     if nda:
         runs.append(single("single-nda", 0, max(1, t // 3), cfg="native-nda"))
@@ -94,7 +95,7 @@ PLANS = {
              "cycle_fn, input-controlled branches, nested cycles, value-controlled monotone branches; history with all entry orders); "
              "every result vs the least fixpoint from two independent solvers; non-trivial iff >=1 request of a cycle member and "
              ">=1 WillIterateCycle" + DIST,
-             300000, 8000000, {"cyclic_requests": 500000, "nested_cycle_requests": 100000, "ev_iterate": 50000}),
+             300000, 8000000, {"cyclic_requests": 500000, "nested_cycle_requests": 100000, "ev_iterate": 50000}, cap=300000),
     "C13": S("case = seeded cyclic (program whose functions all use cycle_result, input-dependent call edges; history); every result vs "
              "the SCC oracle (fallback for members of cyclic SCCs, body value otherwise); non-trivial iff >=1 request of a cycle member" + DIST,
              200000, 6000000, {"cyclic_requests": 500000, "nested_cycle_requests": 50000}),
